@@ -14,7 +14,7 @@ def jobs(tier, seed, prop):
     b = R.sub("R10-self-call", r'(?<![\w.>])makeGrid\(', 'gh_makeGrid(', b)
     b = R.sub("R10-self-call", r'(?<![\w.>])clearRefinement\(\)\s*;', 'gh_clearRefinement();', b)
     b = R.sub("R12g-select", r'updated_tensors\s*=\s*selectTensors\(\(size_t\)\s*num_dimensions,\s*depth,\s*type,\s*anisotropic_weights,\s*rule,\s*level_limits\)\s*;', 'gh_selectTensors(num_dimensions, depth, type, anisotropic_weights, rule, level_limits);', b)
-    b = R.sub("R12g-propose", r'if\s*\(\s*!\(updated_tensors\s*-\s*tensors\)\.empty\(\)\s*\)\s*\{[^}]*\}', 'gh_propose();', b)
+    b = R.sub("R12g-propose", r'if\s*\(\s*!\(updated_tensors\s*-\s*tensors\)\.empty\(\)\s*\)\s*\{[^}]*\}(?:\s*else\s*\{[^}]*\})?', 'gh_propose();', b)
     X.check_leftover(b, "GridGlobal::updateGrid")
     R.require({"R10-self-call": 2, "R12g-select": 1})
     ctext = '''#include "tsg_shim.h"
